@@ -296,8 +296,8 @@ def run(prog, tier):
     c, padv = prog.method("ParallelTempering", "advance")
 
     def w_ts(n, ex, env):
-        if U(n.func) == "self.take_steps" and len(n.args) == 1:
-            return ex.need_r(ex.eval(n.args[0], env))
+        if U(n.func) == "self.take_steps" and len(n.args) + len(n.keywords) == 1:
+            return ex.need_r(ex.eval(n.args[0] if n.args else n.keywords[0].value, env))
         return None
     o = C15._trip(prog, c, padv, w_ts, padv.args.args[1].arg, "steps per chain (sum of take_steps arguments)")
     o.rule = "equal-steps"
